@@ -19,6 +19,8 @@ RestartGraphFaithful
 """
 from __future__ import annotations
 
+import json
+import os
 import sqlite3
 from typing import Dict, List, Optional, Tuple
 
@@ -29,6 +31,49 @@ from .profile import Monitor, OpProfile, _freeze, _thaw
 from .world import World
 
 ACTIVE = ('submitted', 'running')
+
+
+# ---------------------------------------------------------------------------
+# counters that survive the search-worker processes (vacuity guards)
+
+class Counters:
+    """Per-process counters flushed to <scratch>/<tag>-<pid>.json."""
+
+    def __init__(self, tag: str):
+        self.tag = tag
+        self.c: Dict[str, int] = {}
+        self.dirty = False
+        self.pid = None
+
+    def bump(self, name: str, n: int = 1) -> None:
+        if self.pid != os.getpid():
+            self.pid = os.getpid()
+            self.c = {}
+        self.c[name] = self.c.get(name, 0) + n
+        self.dirty = True
+
+    def flush(self) -> None:
+        if not self.dirty or self.pid != os.getpid():
+            return
+        from ..core import scratch_root
+        path = scratch_root() / f'{self.tag}-{os.getpid()}.json'
+        tmp = path.with_suffix('.tmp')
+        tmp.write_text(json.dumps(self.c))
+        os.replace(tmp, path)
+        self.dirty = False
+
+    def collect(self, scratch) -> Dict[str, int]:
+        total: Dict[str, int] = {}
+        for p in sorted(scratch.glob(f'{self.tag}-*.json')):
+            try:
+                for k, v in json.loads(p.read_text()).items():
+                    total[k] = total.get(k, 0) + int(v)
+            finally:
+                p.unlink()
+        return total
+
+
+COUNTS = Counters('c19-counters')
 
 
 # ---------------------------------------------------------------------------
@@ -254,16 +299,13 @@ def expected_after_restart(task: tuple) -> tuple:
 class RestartState(Monitor):
     """C19, state clause."""
     name = 'restart-state'
-    restarts_checked = 0
-    tasks_compared = 0
-    preparing_seen = 0
-    modes_seen: Dict[str, int] = {}
 
     def __init__(self):
         self.bad: List[dict] = []
         self.snap: Optional[tuple] = None      # (tasks, globals, reason)
         # (point, name) -> submit number the next job must be given
         self.resubmit: Tuple[Tuple[Tuple[str, str], int], ...] = ()
+        self.env_at_stop = None
 
     def key(self):
         return (self.snap, self.resubmit)
@@ -278,12 +320,15 @@ class RestartState(Monitor):
             tasks = tuple(sorted(
                 task_snapshot(t) for t in schd.pool.get_tasks()))
             self.snap = (tasks, globals_snapshot(schd), data['reason'])
+            self.env_at_stop = w.env.canon()[0]
         elif kind == 'started' and data.get('restart'):
             self.compare(w)
         elif kind == 'cmd_start' and data['kind'] == 'jobs-submit':
             want = dict(self.resubmit)
             for (p, name, num) in data['jobs']:
                 exp = want.pop((p, name), None)
+                if exp is not None:
+                    COUNTS.bump('preparing task submitted after restart')
                 if exp is not None and exp != num:
                     self.bad.append(self.viol(
                         'preparing-task-resubmitted-under-other-number',
@@ -298,9 +343,33 @@ class RestartState(Monitor):
             return
         tasks, glob, reason = snap
         schd = w.schd
-        RestartState.restarts_checked += 1
-        m = RestartState.modes_seen
-        m[reason] = m.get(reason, 0) + 1
+        COUNTS.bump('restarts compared')
+        COUNTS.bump(f'restart after {reason}')
+        g = dict(glob)
+        for k, name in (('hold point', 'hold point'),
+                        ('stop task', 'stop task'),
+                        ('broadcasts', 'broadcast'),
+                        ('held tasks', 'held task')):
+            if g[k]:
+                COUNTS.bump(f'restart with a {name}')
+        if g['flow counter'] > 1:
+            COUNTS.bump('restart with flow counter > 1')
+        if w.spec.get('stop') is not None:
+            COUNTS.bump('restart with a stop point')
+        for t in tasks:
+            COUNTS.bump(f'restored task that was {t[1]}')
+            if len(t[2]) > 1:
+                COUNTS.bump('restored task with merged flows')
+            if t[3]:
+                COUNTS.bump('restored held task')
+            if any(v for _, v in t[7]):
+                COUNTS.bump('restored task with a satisfied xtrigger')
+            if any(v for _, v in t[6]) and not all(v for _, v in t[6]):
+                COUNTS.bump('restored task with partially satisfied '
+                            'prerequisites')
+        if self.env_at_stop is not None and (
+                self.env_at_stop != w.env.canon()[0]):
+            COUNTS.bump('restart after jobs progressed while down')
         want = {t[0]: expected_after_restart(t) for t in tasks}
         got = {}
         for it in schd.pool.get_tasks():
@@ -309,12 +378,10 @@ class RestartState(Monitor):
         resub = dict(self.resubmit)
         for t in tasks:
             if t[1] == 'preparing':
-                RestartState.preparing_seen += 1
                 p, n = t[0].split('/')
                 resub[(p, n)] = t[4]
         self.resubmit = tuple(sorted(resub.items()))
         for ident in sorted(set(want) | set(got)):
-            RestartState.tasks_compared += 1
             a, b = want.get(ident), got.get(ident)
             if b is None:
                 self.bad.append(self.viol(
@@ -353,6 +420,7 @@ class RestartState(Monitor):
 
     def after(self, w: World, ev: tuple) -> List[dict]:
         out, self.bad = self.bad, []
+        COUNTS.flush()
         return out
 
 
